@@ -36,7 +36,7 @@ pub fn run(args: &Args) -> i32 {
     rep.set_rule("every case = one point set of the degenerate-geometry lattice, (a) turned into a cluster through the cfg-guarded constructor and fitted, (b) given to the public cluster_spacepoints and every resulting cluster fitted, then the fitted tracks given to find_vertices; all inside catch_unwind; oracle: returns, Ok(track) or the no-initial-parameters error, finite helix parameters, t_inner / t_outer in [-pi, pi], finite vertex; non-trivial = at least 13 points; distinct by hash of the point bit patterns");
     rep.assume("decided on the lattice only: 12 degenerate families x 18 perturbation decades x 4 ways of applying it x 5 orientations x sizes; values between lattice points are not covered");
     let thorough = args.tier == Tier::Thorough;
-    let sizes: Vec<usize> = if thorough { vec![13, 14, 20, 200] } else { vec![13, 20] };
+    let sizes: Vec<usize> = if thorough { vec![13, 14, 15, 17, 20, 40, 200] } else { vec![13, 20] };
     let ns = sizes.len() as u64;
     let radices = [FAMILIES, 18, 4, 5, ns];
     rep.run("degenerate-lattice", product(&radices), 300, true, "12 families (radial line, chord, z-only, circle through the origin, equal radii, one point repeated, two points repeated, three points + repeats, dyadic grid, radius extremes 0.05/0.25, helix with pitch from the 44-value alphabet, deterministic cloud) x 18 perturbation decades (0, 1e-18..1e-2) x 4 ways x 5 orientations x sizes", |idx, loc| {
